@@ -17,7 +17,9 @@
 #include "iter_kinds.hpp"
 #include "iter_algos.hpp"
 #include <iostream>
+#include <cstring>
 #include <list>
+#include <new>
 #include <sys/time.h>
 
 #ifndef C12_GROUP
@@ -147,6 +149,19 @@ struct session : isession
         if (op == "StdFill")    return fill_impl(y, z, elem_of(a.at("v")), wcap<c12::CAP_FILL>());
         if (op == "StdReverse") return reverse_impl(y, z, wcap<c12::CAP_REVERSE>());
         if (op == "StdSort")    return sort_impl(y, z, wcap<c12::CAP_SORT>());
+        if (op == "StdMinElement") return itres(c12::algo_min_element<K>(y, z));
+        if (op == "StdCopyWithin")
+        {
+            It dst = c.begin();
+            for (long long i = 0; i < a.num("j"); ++i) ++dst;
+            return copywithin_impl(y, z, dst, wcap<c12::CAP_COPYWITHIN>());
+        }
+        if (op == "StdRotate")
+        {
+            It mid = y;
+            for (long long i = 0; i < a.num("m"); ++i) ++mid;
+            return rotate_impl(y, mid, z, wcap<c12::CAP_ROTATE>());
+        }
         std::fprintf(stderr, "script: unknown algorithm %s\n", op.c_str());
         std::exit(3);
     }
@@ -160,6 +175,97 @@ struct session : isession
         return attempt(UNSUP, [](session& s, const auto& yy, const auto& zz) RET(void(yy < zz), void(yy + D(1)), s.do_sort(yy, zz)), *this, y, z);
     }
     std::string sort_impl(const It&, const It&, std::false_type) { return UNSUP; }
+    std::string rotate_impl(const It& y, const It& mid, const It& z, std::true_type) { return itres(c12::algo_rotate<K>(y, mid, z)); }
+    std::string rotate_impl(const It&, const It&, const It&, std::false_type) { return UNSUP; }
+    std::string copywithin_impl(const It& y, const It& z, const It& d, std::true_type) { return itres(c12::algo_copy_within<K>(y, z, d)); }
+    std::string copywithin_impl(const It&, const It&, const It&, std::false_type) { return UNSUP; }
+
+    // ---- round 3: singular iterators, multi-pass, mixed iterator / const_iterator expressions
+    std::string dcassign(const It& z, std::true_type)
+    {
+        // default-initialised over poisoned bytes (what an automatic `It t;` holds is whatever the stack held: here it is
+        // deterministic); the only things done with the singular iterator are assignment and destruction
+        alignas(It) unsigned char buf[sizeof(It)];
+        std::memset(buf, 0xAA, sizeof(buf));
+        It* t = new (static_cast<void*>(buf)) It;
+        *t = z;
+        std::string r = itres(*t);
+        t->~It();
+        std::memset(buf, 0x55, sizeof(buf));
+        It* u = new (static_cast<void*>(buf)) It;      // a singular iterator that is only destroyed
+        u->~It();
+        return r;
+    }
+    std::string dcassign(const It&, std::false_type) { return UNSUP; }
+    std::string multipass(const It& x, long long m)
+    {
+        It c1(x), c2(x);
+        std::vector<std::string> o1, o2;
+        for (long long i = 0; i < m; ++i) { o1.push_back(K::tup(*c1)); ++c1; }
+        for (long long i = 0; i < m; ++i) { o2.push_back(K::tup(*c2)); c2++; }
+        vj::out o;
+        o.kraw("first", c12::seq_json(o1)).kraw("second", c12::seq_json(o2)).kraw("eq", (c1 == c2) ? "true" : "false").kraw("it", obs(c1));
+        return o.obj();
+    }
+    // the const twin of the kind (K::citerator, K::cbegin(), K::cend()), if the adapter names one
+    template <class CIt> std::string cobs(const CIt& x)
+    {
+        CIt cur = c.cbegin();
+        long long n = c.size(), cnt = -1;
+        for (long long i = 0; i <= n; ++i)
+        {
+            if (cur == x) { cnt = i; break; }
+            if (i < n) ++cur;
+        }
+        CIt b = c.cbegin(), e = c.cend();
+        vj::out o;
+        o.kv("c", cnt);
+        o.kraw("d", attempt(std::to_string(NA), [](const auto& y, const auto& bb) RET(std::to_string((long long)(y - bb))), x, b));
+        o.kraw("e", attempt(std::to_string(NA), [](const auto& y, const auto& ee) RET(std::to_string((long long)(ee - y))), x, e));
+        o.kraw("v", (cnt >= 0 && cnt < n) ? K::tup(*x) : std::string("[]"));
+        return "{\"it\":" + o.obj() + "}";
+    }
+    template <class KK> auto toconst(const It& x, int) -> decltype(void(std::declval<KK&>().cbegin()), std::string())
+    {
+        using CIt = typename KK::citerator;
+        return attempt(UNSUP, [](session& s, const auto& y) RET(s.template cobs<CIt>(y)), *this, x);      // implicit conversion It -> CIt
+    }
+    template <class KK> std::string toconst(const It&, long) { return UNSUP; }
+    template <class KK> auto mixed(const std::string& o, const It& x, const It& z, int) -> decltype(void(std::declval<KK&>().cbegin()), std::string())
+    {
+        using CIt = typename KK::citerator;
+        return attempt(UNSUP, [](session& s, const std::string& oo, const auto& y, const auto& zz) RET(s.template mixed2<CIt>(oo, y, zz)), *this, o, x, z);
+    }
+    template <class KK> std::string mixed(const std::string&, const It&, const It&, long) { return UNSUP; }
+    template <class CIt> std::string mixed2(const std::string& o, const It& y, const CIt& cz)      // cz: converted from the other iterator
+    {
+        session& S = *this;
+        if (o == "caps")
+        {
+            vj::out c;
+            c.kraw("conv", "true");
+            c.kraw("eq", attempt("false", [](const auto& a, const auto& b) RET(void(a == b), void(b == a), std::string("true")), y, cz));
+            c.kraw("ne", attempt("false", [](const auto& a, const auto& b) RET(void(a != b), void(b != a), std::string("true")), y, cz));
+            c.kraw("lt", attempt("false", [](const auto& a, const auto& b) RET(void(a < b), void(b < a), std::string("true")), y, cz));
+            c.kraw("le", attempt("false", [](const auto& a, const auto& b) RET(void(a <= b), void(b <= a), std::string("true")), y, cz));
+            c.kraw("gt", attempt("false", [](const auto& a, const auto& b) RET(void(a > b), void(b > a), std::string("true")), y, cz));
+            c.kraw("ge", attempt("false", [](const auto& a, const auto& b) RET(void(a >= b), void(b >= a), std::string("true")), y, cz));
+            c.kraw("diff", attempt("false", [](const auto& a, const auto& b) RET(void(a - b), void(b - a), std::string("true")), y, cz));
+            return c.obj();
+        }
+        // both operand orders are evaluated; they must agree (it OP cit, and the mirrored cit OP' it)
+        if (o == "eq") return attempt(UNSUP, [](session& s, const auto& a, const auto& b) RET(s.boolres2(a == b, b == a)), S, y, cz);
+        if (o == "ne") return attempt(UNSUP, [](session& s, const auto& a, const auto& b) RET(s.boolres2(a != b, b != a)), S, y, cz);
+        if (o == "lt") return attempt(UNSUP, [](session& s, const auto& a, const auto& b) RET(s.boolres2(a < b, b > a)), S, y, cz);
+        if (o == "le") return attempt(UNSUP, [](session& s, const auto& a, const auto& b) RET(s.boolres2(a <= b, b >= a)), S, y, cz);
+        if (o == "gt") return attempt(UNSUP, [](session& s, const auto& a, const auto& b) RET(s.boolres2(a > b, b < a)), S, y, cz);
+        if (o == "ge") return attempt(UNSUP, [](session& s, const auto& a, const auto& b) RET(s.boolres2(a >= b, b <= a)), S, y, cz);
+        if (o == "diff") return attempt(UNSUP, [](session& s, const auto& a, const auto& b) RET(s.numres2(a - b, b - a)), S, y, cz);
+        std::fprintf(stderr, "script: unknown MixedCmp operator %s\n", o.c_str());
+        std::exit(3);
+    }
+    std::string boolres2(bool x, bool mirrored) { return x == mirrored ? boolres(x) : std::string("{\"operand_orders_disagree\":true}"); }
+    std::string numres2(long long x, long long neg) { return x == -neg ? numres(x) : std::string("{\"operand_orders_disagree\":true}"); }
     std::string do_sort(const It& y, const It& z) { c12::algo_sort<K>(y, z); return voidres(); }
 
     // ---- traversal through std::reverse_iterator<It>
@@ -243,6 +349,12 @@ struct session : isession
         if (op == "PostInc") return attempt(UNSUP, [](session& s, auto& y) RET(s.itres(y++)), S, x);
         if (op == "PreDec")  return attempt(UNSUP, [](session& s, auto& y) RET(s.itres(--y)), S, x);
         if (op == "PostDec") return attempt(UNSUP, [](session& s, auto& y) RET(s.itres(y--)), S, x);
+        if (op == "PostIncDeref") return attempt(UNSUP, [](session& s, auto& y) RET(s.elemres(*y++)), S, x);
+        if (op == "PostDecDeref") return attempt(UNSUP, [](session& s, auto& y) RET(s.elemres(*y--)), S, x);
+        if (op == "DcAssign")  return dcassign(cx, std::is_default_constructible<It>());
+        if (op == "MultiPass") return multipass(cx, a.num("m"));
+        if (op == "ToConst")   return toconst<K>(cx, 0);
+        if (op == "MixedCmp" || op == "MixedCaps") return mixed<K>(op == "MixedCaps" ? std::string("caps") : a.str("o"), cx, cz, 0);
         if (op == "Deref")   return attempt(UNSUP, [](session& s, const auto& y) RET(s.elemres(*y)), S, cx);
         if (op == "Arrow")   return arrow_impl<void>(cx, cap<c12::CAP_ARROW>());
         if (op == "Eq")      return attempt(UNSUP, [](session& s, const auto& y, const auto& z) RET(s.boolres(y == z)), S, cx, cz);
@@ -398,6 +510,15 @@ struct session : isession
 #ifndef CAPS_cvalue_map
 #define CAPS_cvalue_map c12::CAP_ALL
 #endif
+#ifndef CAPS_key_mmap
+#define CAPS_key_mmap c12::CAP_ALL
+#endif
+#ifndef CAPS_value_mmap
+#define CAPS_value_mmap c12::CAP_ALL
+#endif
+#ifndef CAPS_step_neg
+#define CAPS_step_neg c12::CAP_ALL
+#endif
 #ifndef CAPS_toy_bi1
 #define CAPS_toy_bi1 c12::CAP_ALL
 #endif
@@ -511,6 +632,9 @@ static std::unique_ptr<isession> make_session(const std::string& kind, const vj:
     KIND(key_map)
     KIND(value_map)
     KIND(cvalue_map)
+    KIND(key_mmap)
+    KIND(value_mmap)
+    KIND(step_neg)
 #endif
 #if GROUP(4)
     KIND(toy_bi1)
